@@ -263,21 +263,25 @@ func evalString(t *target, s []byte, it *item, reason string, cx *ctx, part stri
 			st.samples = append(st.samples, map[string]interface{}{"part": "strings", "type": t.name, "input": hx(s), "outcome": "accepted, re-encoding identical", "shape": key})
 		}
 	}
-	// Stream variants must agree with DecodeBytes (except that a Stream does not look at trailing bytes).
+	// Stream variants must agree with DecodeBytes (except that a Stream does not look at trailing bytes) and
+	// must consume exactly the first item.
 	for variant := 0; variant < 2; variant++ {
 		if variant == 0 && cx.fullLen > 0 && len(s) >= cx.fullLen {
 			continue // same code path as DecodeBytes (limit discovered from the bytes.Reader): run on the shorter strings only
 		}
 		pv2 := reflect.New(t.kt)
 		var serr error
+		left := 0
 		span := guard(func() {
-			var sm *krlp.Stream
 			if variant == 0 {
-				sm = krlp.NewStream(bytes.NewReader(s), 0)
+				rd := bytes.NewReader(s)
+				serr = krlp.NewStream(rd, 0).Decode(pv2.Interface())
+				left = rd.Len()
 			} else {
-				sm = krlp.NewStream(&shortReader{plainReader{b: s}}, uint64(len(s)))
+				rd := &shortReader{plainReader{b: s}}
+				serr = krlp.NewStream(rd, uint64(len(s))).Decode(pv2.Interface())
+				left = len(rd.b)
 			}
-			serr = sm.Decode(pv2.Interface())
 		})
 		vname := [2]string{"stream-bytes-reader", "stream-short-reader-limited"}[variant]
 		switch {
@@ -288,6 +292,10 @@ func evalString(t *target, s []byte, it *item, reason string, cx *ctx, part stri
 				fmt.Sprintf("%s on %x: err=%v but DecodeBytes err=%v", vname, s, serr, err), rc)
 		case accept && !sameValue(pv.Elem(), pv2.Elem()):
 			cx.col.add(sigOf(t.name, cls, vname+"-disagrees"), fmt.Sprintf("%s decodes %x to a different value", vname, s), rc)
+		case serr == nil && it != nil && len(s)-left != it.total:
+			// it != nil: the first item of s is canonical (possibly followed by more bytes)
+			cx.col.add(sigOf(t.name, cls, "stream-consumed-length"),
+				fmt.Sprintf("%s.Decode into %s succeeds on %x but consumes %d bytes; the first item has %d", vname, t.name, s, len(s)-left, it.total), rc)
 		}
 	}
 	// reference
